@@ -226,7 +226,7 @@ def srcConsistent (s : SV) (src : List (String × Rat)) : Bool :=
 /-- the value updates for which **alias_tracks** is claimed: `setParameterValue` of any
 parameter; the source-iterating bulk setters when the source names independent parameters only
 (a source naming an aliased parameter writes it directly, after its source: see
-`Props/C03.lean`, `direct_write_desyncs_witness`); `setAllParametersValues` (which writes every
+`Props/C03.lean`, `chain_needs_sync_witness`); `setAllParametersValues` (which writes every
 parameter directly) when the source is consistent with the links -/
 def Op.tracked (s : SV) : Op → Bool
   | .setv .. => true
@@ -262,7 +262,7 @@ def checkStep (b : View) (op : Op) (out : Out) (a : View) : Option String :=
          else if sb != sa then some "refuse_unchanged"
          else none)
       else if out == .err .notfound || out == .err .bpp then some "alias_refused_wrongly"
-      else if out.isErr then none
+      else if out.isErr then (if sb != sa then some "alias_raise_unchanged" else none)   -- ConstraintException
       else if !aliasOk p1 p2 sb sa then some "alias_effect"
       else none
     | _, _ => none
